@@ -13,6 +13,7 @@ This module also hosts the helpers shared with c15.py / c16.py.
 import json
 import os
 import re
+import shutil
 import subprocess
 from concurrent.futures import ThreadPoolExecutor
 import vlib
@@ -50,8 +51,34 @@ def actions_never_taken(r):
     return zero
 
 
+_stable = {}
+
+
+def stable_exe(name, srcs, groups):
+    """Builds through vlib.build and copies the executable into this run's scratch directory: the shared build cache keeps
+    only the most recent source digests and is pruned by checks that other builders run at the same time."""
+    if name not in _stable:
+        for attempt in range(4):
+            try:
+                exe = vlib.build(name, srcs, groups=groups)
+            except vlib.MachineryError as e:
+                if "No such file or directory" in str(e) and attempt < 3:      # cache directory pruned in the middle of the build
+                    continue
+                raise
+            dst = os.path.join(vlib.scratch(), "exe-" + name)
+            try:
+                shutil.copy2(exe, dst)
+                _stable[name] = dst
+                break
+            except FileNotFoundError:
+                continue
+        else:
+            raise vlib.MachineryError("harness executable %s vanished from the build cache three times" % name)
+    return _stable[name]
+
+
 def build_chrono():
-    return vlib.build("chrono", ["chrono_harness.cpp"], groups=("msgpack", "common"))
+    return stable_exe("chrono", ["chrono_harness.cpp"], ("msgpack", "common"))
 
 
 def run_sharded(exe, mode, reqfile, rows, shards=None, timeout=1700):
@@ -77,6 +104,22 @@ def run_sharded(exe, mode, reqfile, rows, shards=None, timeout=1700):
     for o in outs:
         lines += [l for l in o.splitlines() if l.strip()]
     return lines
+
+
+def validate_shard(module, cfg, lines, tag, timeout=1700, xmx="4g"):
+    """Like vlib.validate_traces for ONE shard, with a caller-chosen unique file name (safe to call from several threads)."""
+    p = os.path.join(vlib.scratch(), "trace-%s-%s.ndjson" % (module, tag))
+    with open(p, "w") as f:
+        f.write("\n".join(lines) + "\n")
+    e = {"TRACE": p}
+    e.update(GC)
+    r = vlib.tlc(module, cfg=cfg, env=e, workers=1, timeout=timeout, xmx=xmx)
+    os.unlink(p)
+    c = r.printed("CHECKED")
+    if not c or c[0]["n"] != len(lines):
+        raise vlib.MachineryError("trace validator %s did not process its whole shard %s (%s of %d):\n%s" % (
+            module, tag, c, len(lines), "\n".join(r.out.splitlines()[-25:])))
+    return len(lines), r.printed("BAD")
 
 
 # ----------------------------------------------------------------------------------------------
@@ -128,7 +171,7 @@ def leg_mc_chrono(chk, tier):
     jobs = []
     for ylo, yhi, pp, neg in confs:
         cfg = write_cfg("mc_chrono_%d_%s.cfg" % (ylo, neg), MC_CHRONO_CFG % (ylo, yhi, pp, "TRUE" if neg else "FALSE"))
-        jobs.append(dict(module="MC_Chrono", cfg=cfg, timeout=1700, xmx="8g", workers=max(2, vlib.NCPU // len(confs)),
+        jobs.append(dict(module="MC_Chrono", cfg=cfg, timeout=1700, xmx="3g", workers=max(2, vlib.NCPU // len(confs)),
                          env={"JAVA_TOOL_OPTIONS": "-XX:ParallelGCThreads=4"}))
     for (ylo, yhi, pp, neg), r in zip(confs, vlib.tlc_parallel(jobs)):
         if r.distinct <= abs(yhi - ylo) + 1:
@@ -148,7 +191,7 @@ def table_job(tag, env, mode, urset):
     e = dict(env)
     e.update({"OUT": out, "URSET": urset})
     e.update(GC)
-    r = vlib.tlc("ChronoTables", cfg="ChronoTables.cfg", env=e, workers=1, timeout=1700, xmx="3g")
+    r = vlib.tlc("ChronoTables", cfg="ChronoTables.cfg", env=e, workers=1, timeout=1700, xmx="2g")
     w = r.printed("WROTE")
     if not w:
         raise vlib.MachineryError("ChronoTables wrote nothing for %s:\n%s" % (tag, r.out[-1500:]))
@@ -196,8 +239,8 @@ def leg_tables(chk, tier):
         secdays = [1, 2]
         secstep = 21600
     else:
-        for i, ylo in enumerate(range(-10000, 20001, 400)):
-            jobs.append(("yr%d" % i, {"MODE": "years", "YLO": ylo, "YHI": min(20000, ylo + 399)}, "days", urset))
+        for i, ylo in enumerate(range(-10000, 20001, 200)):
+            jobs.append(("yr%d" % i, {"MODE": "years", "YLO": ylo, "YHI": min(20000, ylo + 199)}, "days", urset))
         for i, ylo in enumerate(range(-10000, 20001, 2500)):
             jobs.append(("mb%d" % i, {"MODE": "bounds", "YLO": ylo, "YHI": min(20000, ylo + 2499), "MONTHS": "1"}, "days", "all"))
         secdays = list(range(1, 19))
@@ -206,7 +249,8 @@ def leg_tables(chk, tier):
         for lo in range(0, 86400, secstep):
             jobs.append(("sec%d-%d" % (d, lo), {"MODE": "seconds", "DAYIDX": d, "SLO": lo, "SHI": lo + secstep - 1}, "secs", "all"))
     build_chrono()
-    with ThreadPoolExecutor(max_workers=vlib.NCPU) as ex:
+    # the machine is shared: at most NCPU/2 table shards (2 GB heap each) at a time
+    with ThreadPoolExecutor(max_workers=max(2, vlib.NCPU // 2)) as ex:
         results = list(ex.map(lambda j: table_job(j[0], j[1], j[2], j[3]), jobs))
     total = 0
     follow = []
@@ -260,7 +304,7 @@ def leg_instants(chk, tier, follow):
     chk.add_cases(len(lines) + len(rl))
     alll = lines + rl
     chk.sample({"leg": "instants", "limit_requests": nlim, "random": len(rl), "record": json.loads(alll[len(alll) // 2])})
-    checked, bad = vlib.validate_traces("Trace_Chrono", alll + follow, cfg="Trace_Chrono.cfg", timeout=1700, env=GC,
+    checked, bad = vlib.validate_traces("Trace_Chrono", alll + follow, cfg="Trace_Chrono.cfg", timeout=1700, env=GC, xmx="2g",
                                         shards=vlib.NCPU if len(follow) > 2000 else None)
     chk.add_cases(0, validated=checked)
     byid = {}
